@@ -76,7 +76,7 @@ macro_rules! reset_instance {
     };
 }
 
-// @verif id=VS.pim.reset.est props=C17,C10,C03 tier=quick timeout=900
+// @verif id=VS.pim.reset.est props=C17,C03,C10 tier=quick timeout=900
 // @functions VirtualSocket::process_incoming_message (ST_RESET arm)
 // @bounds state Established; RESET with ANY seq_nr, ack_nr, window, timestamps
 // @asserts the connection is Closed at once, the call returns the reset error, NO datagram is emitted in reply
@@ -84,7 +84,7 @@ macro_rules! reset_instance {
 // @tier C
 reset_instance!(vs_pim_reset_established, VirtualSocketState::Established, true);
 
-// @verif id=VS.pim.reset.la props=C17,C10,C03 tier=quick timeout=900
+// @verif id=VS.pim.reset.la props=C17,C03,C10 tier=quick timeout=900
 // @functions VirtualSocket::process_incoming_message (ST_RESET arms)
 // @bounds state LastAck (own FIN = OUR_SEQ-1 unacknowledged); RESET with ANY ack_nr
 // @asserts Closed at once; no error exactly when the RESET acknowledges our FIN (close handshake already answered), otherwise the reset error; no reply
@@ -92,7 +92,7 @@ reset_instance!(vs_pim_reset_established, VirtualSocketState::Established, true)
 // @tier C
 reset_instance!(vs_pim_reset_lastack, VirtualSocketState::LastAck { our_fin: SeqNr(OUR_SEQ.wrapping_sub(1)), remote_fin: SeqNr(PEER_LAST) }, true);
 
-// @verif id=VS.pim.reset.fw1 props=C17,C10,C03 tier=quick timeout=900
+// @verif id=VS.pim.reset.fw1 props=C17,C03 tier=quick timeout=900
 // @functions VirtualSocket::process_incoming_message (ST_RESET arm)
 // @bounds state FinWait1; RESET with ANY fields
 // @asserts Closed, reset error, no reply
@@ -100,7 +100,7 @@ reset_instance!(vs_pim_reset_lastack, VirtualSocketState::LastAck { our_fin: Seq
 // @tier C
 reset_instance!(vs_pim_reset_finwait1, VirtualSocketState::FinWait1 { our_fin: SeqNr(OUR_SEQ.wrapping_sub(1)) }, true);
 
-// @verif id=VS.pim.reset.sas props=C17,C10,C03 tier=thorough timeout=900
+// @verif id=VS.pim.reset.sas props=C17,C03 tier=thorough timeout=900
 // @functions VirtualSocket::process_incoming_message (ST_RESET arm)
 // @bounds state SynAckSent; RESET with ANY fields
 // @asserts Closed, reset error, no reply
@@ -108,7 +108,7 @@ reset_instance!(vs_pim_reset_finwait1, VirtualSocketState::FinWait1 { our_fin: S
 // @tier C
 reset_instance!(vs_pim_reset_synacksent, VirtualSocketState::SynAckSent { count: 1 }, true);
 
-// @verif id=VS.pim.reset.fw2 props=C17,C10,C03 tier=thorough timeout=900
+// @verif id=VS.pim.reset.fw2 props=C17,C03 tier=thorough timeout=900
 // @functions VirtualSocket::process_incoming_message (ST_RESET arm)
 // @bounds state FinWait2; RESET with ANY fields
 // @asserts Closed, reset error, no reply
@@ -238,7 +238,7 @@ macro_rules! fin_instance {
     };
 }
 
-// @verif id=VS.pim.fin.est props=C17,C03,C04,C07,C10 tier=quick timeout=1200 mem=16
+// @verif id=VS.pim.fin.est props=C17,C03,C04,C07 tier=quick timeout=1200 mem=16
 // @functions VirtualSocket::process_incoming_message (ST_FIN), UserTx::mark_vsock_closed, VirtualSocket::force_immediate_ack
 // @stubs UserRx::add_remove -> contract stub (records offset/type, returns any of Consumed/AlreadyPresent/Unavailable); the real function is decided by OOQ.add.* / RX.add.*
 // @bounds state Established; FIN exactly in sequence (seq_nr == last consumed + 1 == 0, across the 16-bit wrap), ANY ack_nr/window/timestamps; reassembly queue empty
@@ -247,7 +247,7 @@ macro_rules! fin_instance {
 // @tier C
 fin_instance!(vs_pim_fin_established_in_seq, VirtualSocketState::Established, 0);
 
-// @verif id=VS.pim.fin.est.p1 props=C17,C03,C04,C10 tier=quick timeout=1200 mem=16
+// @verif id=VS.pim.fin.est.p1 props=C17,C03,C04 tier=quick timeout=1200 mem=16
 // @functions VirtualSocket::process_incoming_message (ST_FIN)
 // @bounds state Established; FIN one AHEAD of the next expected number (a data packet is still missing), ANY ack_nr/window
 // @asserts a FIN is honoured only in sequence: nothing changes at all (no state change, nothing consumed, no EOF queued, writer not told)
@@ -255,7 +255,7 @@ fin_instance!(vs_pim_fin_established_in_seq, VirtualSocketState::Established, 0)
 // @tier C
 fin_instance!(vs_pim_fin_established_ahead, VirtualSocketState::Established, 1);
 
-// @verif id=VS.pim.fin.est.m1 props=C17,C03,C04,C10 tier=quick timeout=1200 mem=16
+// @verif id=VS.pim.fin.est.m1 props=C17,C03,C04 tier=quick timeout=1200 mem=16
 // @functions VirtualSocket::process_incoming_message (ST_FIN)
 // @bounds state Established; FIN carrying an already consumed sequence number (one behind)
 // @asserts nothing changes at all
@@ -263,7 +263,7 @@ fin_instance!(vs_pim_fin_established_ahead, VirtualSocketState::Established, 1);
 // @tier C
 fin_instance!(vs_pim_fin_established_behind, VirtualSocketState::Established, -1);
 
-// @verif id=VS.pim.fin.fw1 props=C17,C03,C04,C10 tier=quick timeout=1200 mem=16
+// @verif id=VS.pim.fin.fw1 props=C17,C03,C04 tier=quick timeout=1200 mem=16
 // @functions VirtualSocket::process_incoming_message (ST_FIN)
 // @bounds state FinWait1 (own FIN = OUR_SEQ-1); FIN in sequence, ANY ack_nr
 // @asserts Closed if it also acknowledges our FIN, else LastAck keeping our FIN number; FIN consumed, immediate ACK forced
@@ -271,7 +271,7 @@ fin_instance!(vs_pim_fin_established_behind, VirtualSocketState::Established, -1
 // @tier C
 fin_instance!(vs_pim_fin_finwait1_in_seq, VirtualSocketState::FinWait1 { our_fin: SeqNr(OUR_SEQ.wrapping_sub(1)) }, 0);
 
-// @verif id=VS.pim.fin.fw2 props=C17,C03,C04,C10 tier=quick timeout=1200 mem=16
+// @verif id=VS.pim.fin.fw2 props=C17,C03,C04 tier=quick timeout=1200 mem=16
 // @functions VirtualSocket::process_incoming_message (ST_FIN)
 // @bounds state FinWait2; FIN in sequence
 // @asserts Closed; FIN consumed
@@ -279,7 +279,7 @@ fin_instance!(vs_pim_fin_finwait1_in_seq, VirtualSocketState::FinWait1 { our_fin
 // @tier C
 fin_instance!(vs_pim_fin_finwait2_in_seq, VirtualSocketState::FinWait2, 0);
 
-// @verif id=VS.pim.fin.fw2.p1 props=C17,C03,C10 tier=thorough timeout=1200 mem=16
+// @verif id=VS.pim.fin.fw2.p1 props=C17,C03 tier=thorough timeout=1200 mem=16
 // @functions VirtualSocket::process_incoming_message (ST_FIN)
 // @bounds state FinWait2; FIN one ahead
 // @asserts nothing changes
@@ -287,7 +287,7 @@ fin_instance!(vs_pim_fin_finwait2_in_seq, VirtualSocketState::FinWait2, 0);
 // @tier C
 fin_instance!(vs_pim_fin_finwait2_ahead, VirtualSocketState::FinWait2, 1);
 
-// @verif id=VS.pim.fin.la props=C17,C04,C10 tier=thorough timeout=1200 mem=16
+// @verif id=VS.pim.fin.la props=C17,C04 tier=thorough timeout=1200 mem=16
 // @functions VirtualSocket::process_incoming_message (ST_FIN)
 // @bounds state LastAck; repeated FIN (in-sequence number) with ANY ack_nr
 // @asserts Closed iff our FIN is acknowledged; the acknowledgement number does not move
@@ -295,7 +295,7 @@ fin_instance!(vs_pim_fin_finwait2_ahead, VirtualSocketState::FinWait2, 1);
 // @tier C
 fin_instance!(vs_pim_fin_lastack, VirtualSocketState::LastAck { our_fin: SeqNr(OUR_SEQ.wrapping_sub(1)), remote_fin: SeqNr(PEER_LAST) }, 0);
 
-// @verif id=VS.pim.fin.sas props=C17,C10 tier=thorough timeout=1200 mem=16
+// @verif id=VS.pim.fin.sas props=C17 tier=thorough timeout=1200 mem=16
 // @functions VirtualSocket::process_incoming_message (ST_FIN)
 // @bounds state SynAckSent
 // @asserts Closed
@@ -305,7 +305,7 @@ fin_instance!(vs_pim_fin_synacksent, VirtualSocketState::SynAckSent { count: 1 }
 
 // ---- ST_DATA ------------------------------------------------------------------------------------
 
-// @verif id=VS.pim.data props=C07,C04,C01,C10,C11 tier=quick timeout=1500 mem=16
+// @verif id=VS.pim.data props=C07,C04,C01,C11,C10 tier=quick timeout=1500 mem=16
 // @functions VirtualSocket::process_incoming_message (ST_DATA), VirtualSocket::force_immediate_ack, VirtualSocket::send_ack, VirtualSocket::send_control_packet, VirtualSocket::outgoing_header, SegmentSizes::on_payload_delivered, UtpHeader::serialize
 // @bounds state Established; DATA packet (3-byte payload) with seq_nr anywhere in expected-3 ..= expected+3 across the 16-bit wrap, ANY ack_nr/window/timestamps; add_remove result ANY of its contract (Consumed{n <= 3, bytes <= 48}, AlreadyPresent, Unavailable); reassembly queue empty/non-empty before and after: all 4 combinations; SACK value to attach: none or any 16 leading bits; transport ready or blocked
 // @asserts a packet behind the cumulative position never reaches the queue and forces an immediate ACK (duplicate); otherwise the queue is addressed at offset seq_nr - (last consumed + 1) exactly once; the acknowledgement position advances by exactly the consumed sequence numbers (never backwards) and unacknowledged bytes by the consumed bytes; if anything is or was held out of order an ACK goes out IN THE SAME CALL carrying ack_nr == the new position and the SACK; a blocked transport keeps the immediate ACK pending; otherwise no datagram
